@@ -24,7 +24,9 @@ type c07Cfg struct {
 	interval time.Duration
 }
 
-func (g c07Cfg) String() string { return fmt.Sprintf("cap=%d buf=%d loader=%v", g.cap, g.buf, g.interval) }
+func (g c07Cfg) String() string {
+	return fmt.Sprintf("cap=%d buf=%d loader=%v", g.cap, g.buf, g.interval)
+}
 
 func c07New(g c07Cfg) *fpgo.BufferedChannelQueue[int64] {
 	q := fpgo.NewBufferedChannelQueue[int64](g.cap, g.buf, 4)
@@ -94,7 +96,9 @@ func c07Drain(c *core.Ctx, q *fpgo.BufferedChannelQueue[int64], g c07Cfg, rec *h
 	passesAtLastSuccess := d.Count("bcq.loader.beforeSleep")
 	lastProgress := time.Now()
 	began := time.Now()
-	loaderProgress := func() int64 { return d.Count("bcq.loader.wake") + d.Count("bcq.loader.inhand") + d.Count("bcq.loader.beforeSleep") }
+	loaderProgress := func() int64 {
+		return d.Count("bcq.loader.wake") + d.Count("bcq.loader.inhand") + d.Count("bcq.loader.beforeSleep")
+	}
 	lastTotal := loaderProgress()
 	if g.cap == 0 && mode != 1 {
 		mode = 1 // an unbuffered channel hands over only to a receiver that is already waiting: drain with TakeWithTimeout
